@@ -162,42 +162,7 @@ def run_sx(ck: Check, tier: str, pid: str = 'C08'):
 
 
 def run_eq(ck: Check, fams: Dict[str, List[Any]], label='EQ'):
-    stats: Dict[str, Dict[str, int]] = {}
-    total = 0
-    nontrivial = set()
-    for fname, specs in fams.items():
-        t0 = time.time()
-        results = [x for c in par.pmap_chunks(worker, specs, 150) for x in c]
-        st: Dict[str, int] = {}
-        for spec, (status, sig, what, rep), secs in results:
-            st[status] = st.get(status, 0) + 1
-            total += 1
-            if status == 'ok':
-                ck.obligation(True)
-                ck.query('unsat', rep or 0.0)
-                nontrivial.add(spec)
-            elif status == 'identity':
-                ck.obligation(True)  # output structurally equal to the input: nothing to decide
-            elif status == 'vacuous':
-                ck.obligation(True)
-                ck.query('unsat', rep or 0.0)
-            elif status == 'finding':
-                ck.obligation(False)
-                if sig.startswith('not-equivalent'):
-                    ck.query('sat')
-                ck.counterexample(sig, what, rep)
-            elif status == 'unknown':
-                ck.obligation(None)
-                ck.query('unknown')
-                ck.undecided(what)
-            elif status == 'buildexc':
-                pass  # construction failures other than TypeError belong to C07/C14
-        st['wall_s'] = round(time.time() - t0, 1)
-        stats[fname] = st
-        if specs:
-            ck.sample({'family': fname, 'tree': gen.render(specs[len(specs) // 2])})
-    ck.engine(label, families=stats, trees=total, array_slots_K=K)
-    return total, len(nontrivial)
+    return rw.run_cases(ck, fams, worker, label, K)
 
 
 def main() -> int:
